@@ -80,6 +80,53 @@ theorem Step.trans {P : Entry → Prop} {s1 s2 s3 : St} (a : Step P s1 s2) (b : 
         · exact hn2 e h
         · exact hn1 e h
 
+/-- `Step` for every world but `ex` (the world whose frame is being processed: it may be left by a
+direct `loop.switch` call in the middle of its own frame and still run its remaining processors) -/
+def StepE (ex : Inst) (P : Entry → Prop) (s s' : St) : Prop :=
+  ∃ ext, s'.log = ext ++ s.log ∧ (∀ e ∈ ext, P e) ∧
+    ∀ j q0, j ≠ ex → Muted j q0 s → s.current ≠ some j →
+      (Entry.enter j ∈ ext ∧ PrecIn j ext) ∨
+      (Muted j q0 s' ∧ s'.current ≠ some j ∧ NotOf j ext)
+
+theorem Step.toStepE {P : Entry → Prop} {s s' : St} (ex : Inst) (a : Step P s s') :
+    StepE ex P s s' := by
+  obtain ⟨ext, h1, h2, h3⟩ := a
+  exact ⟨ext, h1, h2, fun j q0 _ hm hc => h3 j q0 hm hc⟩
+
+/-- at the beginning of its frame the processed world is the current one -/
+theorem StepE.toStep {P : Entry → Prop} {s s' : St} {ex : Inst} (hc : s.current = some ex)
+    (a : StepE ex P s s') : Step P s s' := by
+  obtain ⟨ext, h1, h2, h3⟩ := a
+  exact ⟨ext, h1, h2, fun j q0 hm hcj => h3 j q0 (fun c => hcj (c ▸ hc)) hm hcj⟩
+
+theorem StepE.refl (ex : Inst) (P : Entry → Prop) (s : St) : StepE ex P s s :=
+  (Step.refl P s).toStepE ex
+
+theorem StepE.mono {ex : Inst} {P Q : Entry → Prop} {s s' : St} (h : ∀ e, P e → Q e)
+    (a : StepE ex P s s') : StepE ex Q s s' := by
+  obtain ⟨ext, h1, h2, h3⟩ := a
+  exact ⟨ext, h1, fun e he => h e (h2 e he), h3⟩
+
+theorem StepE.trans {ex : Inst} {P : Entry → Prop} {s1 s2 s3 : St} (a : StepE ex P s1 s2)
+    (b : StepE ex P s2 s3) : StepE ex P s1 s3 := by
+  obtain ⟨e1, h1, p1, q1⟩ := a
+  obtain ⟨e2, h2, p2, q2⟩ := b
+  refine ⟨e2 ++ e1, by simp [h2, h1], ?_, ?_⟩
+  · intro e he
+    rcases List.mem_append.mp he with h | h
+    · exact p2 e h
+    · exact p1 e h
+  · intro j q0 hj hm hc
+    rcases q1 j q0 hj hm hc with ⟨hin, hp⟩ | ⟨hm2, hc2, hn1⟩
+    · exact Or.inl ⟨List.mem_append_right _ hin, hp.append_of_mem hin⟩
+    · rcases q2 j q0 hj hm2 hc2 with ⟨hin, hp⟩ | ⟨hm3, hc3, hn2⟩
+      · exact Or.inl ⟨List.mem_append_left _ hin, hp.append_of_notOf hn1⟩
+      · refine Or.inr ⟨hm3, hc3, ?_⟩
+        intro e he
+        rcases List.mem_append.mp he with h | h
+        · exact hn2 e h
+        · exact hn1 e h
+
 theorem quiet_of_eq_evOf {e : Entry} (j : Inst) (h : e.quiet = true) : e.of j = e.evOf j := by
   cases e <;> simp_all [Entry.quiet, Entry.of, Entry.evOf]
 
@@ -158,15 +205,37 @@ theorem logProc_ext {s : St} (i : Inst) (p : Nat) (dt : Int) :
 
 theorem quiet_prP (i : Inst) (dt : Int) : ∀ e, Quiet e → PrP i dt e := fun _ h => Or.inl h
 
+/-- a processor action that is not a direct `loop.switch(...)` call -/
+def PAct.noSwitch : PAct → Bool
+  | .loopSwitch _ _ _ => false
+  | _ => true
+
+/-- user code, a clock assignment and a peek leave the loop's world alone -/
+theorem pact_spec (U : Universe) (fuel : Nat) {s s' : St} {a : PAct} {o : Outcome} (wf : WF s)
+    (hn : a.noSwitch = true) (h : pact U fuel s a = (s', o)) : WF s' ∧ Ext Quiet s s' := by
+  cases a with
+  | user a => exact act_spec U fuel _ _ _ _ wf h
+  | loopSwitch h' cc cn => simp [PAct.noSwitch] at hn
+  | setClock k =>
+    simp only [pact, Prod.mk.injEq] at h; obtain ⟨rfl, _⟩ := h
+    exact ⟨⟨wf.fresh, wf.cached, wf.cur⟩, ⟨rfl, rfl, rfl, rfl, ⟨[], by simp⟩,
+      fun i w h1 h2 => ⟨w, h1, h2, [], by simp⟩⟩⟩
+  | peek =>
+    simp only [pact, Prod.mk.injEq] at h; obtain ⟨rfl, _⟩ := h
+    refine ⟨⟨wf.fresh, wf.cached, wf.cur⟩, ⟨rfl, rfl, rfl, rfl, ⟨[.peek s.current], by simp, ?_, ?_⟩,
+      fun i w h1 h2 => ⟨w, h1, h2, [], by simp⟩⟩⟩
+    · intro e he; simp only [List.mem_singleton] at he; subst he; rfl
+    · intro j w _ _ e he; simp only [List.mem_singleton] at he; subst he; rfl
+
 theorem runProc_spec (U : Universe) (fuel : Nat) {s s' : St} {i : Inst} {dt : Int} {p : Nat}
-    {k : ProcKind} {a : Act} {o : Outcome} (wf : WF s)
+    {k : ProcKind} {a : PAct} {o : Outcome} (wf : WF s) (hn : a.noSwitch = true)
     (h : runProc U fuel s i dt p k a = (s', o)) : WF s' ∧ Ext (PrP i dt) s s' := by
   unfold runProc at h
   have wf1 : WF { s with log := .proc i p dt :: s.log } := ⟨wf.fresh, wf.cached, wf.cur⟩
   have e1 := @logProc_ext s i p dt
   cases k with
   | plain =>
-    obtain ⟨wf2, e2⟩ := act_spec U fuel _ _ _ _ wf1 h
+    obtain ⟨wf2, e2⟩ := pact_spec U fuel wf1 hn h
     exact ⟨wf2, e1.trans (e2.mono (quiet_prP i dt))⟩
   | update =>
     obtain ⟨wf2, e2⟩ := dispatchWith_spec U (act_spec U fuel) wf1 h
@@ -177,9 +246,9 @@ theorem runProc_spec (U : Universe) (fuel : Nat) {s s' : St} {i : Inst} {dt : In
     · simp only [Prod.mk.injEq] at h; obtain ⟨rfl, _⟩ := h; exact ⟨wf1, e1⟩
     · split at h
       · simp only [Prod.mk.injEq] at h; obtain ⟨rfl, _⟩ := h; exact ⟨wf1, e1⟩
-      · cases ha : act U fuel { s with log := .proc i p dt :: s.log } a with
+      · cases ha : pact U fuel { s with log := .proc i p dt :: s.log } a with
         | mk s2 o2 =>
-          obtain ⟨wf2, e2⟩ := act_spec U fuel _ _ _ _ wf1 ha
+          obtain ⟨wf2, e2⟩ := pact_spec U fuel wf1 hn ha
           have e12 := e1.trans (e2.mono (quiet_prP i dt))
           rw [ha] at h
           cases o2 with
@@ -191,29 +260,35 @@ theorem runProc_spec (U : Universe) (fuel : Nat) {s s' : St} {i : Inst} {dt : In
             exact ⟨wf3, e12.trans e3⟩
 
 theorem runProcs_spec (U : Universe) (fuel : Nat) (i : Inst) (dt : Int) :
-    ∀ (ks : List ProcKind) (s : St) (p : Nat) (acts : List Act) (s' : St) (o : Outcome), WF s →
+    ∀ (ks : List ProcKind) (s : St) (p : Nat) (acts : List PAct) (s' : St) (o : Outcome), WF s →
+      (∀ a ∈ acts, a.noSwitch = true) →
       runProcs U fuel i dt s p ks acts = (s', o) → WF s' ∧ Ext (PrP i dt) s s' := by
   intro ks
   induction ks with
   | nil =>
-    intro s p acts s' o wf h
+    intro s p acts s' o wf _ h
     simp only [runProcs, Prod.mk.injEq] at h; obtain ⟨rfl, _⟩ := h; exact ⟨wf, Ext.refl _ _⟩
   | cons k ks ih =>
-    intro s p acts s' o wf h
+    intro s p acts s' o wf hn h
     simp only [runProcs] at h
-    cases hr : runProc U fuel s i dt p k (acts.headD .none) with
+    have hhead : (acts.headD (.user .none)).noSwitch = true := by
+      cases acts with
+      | nil => rfl
+      | cons a as => exact hn a (by simp)
+    have htail : ∀ a ∈ acts.tail, a.noSwitch = true := fun a ha => hn a (List.mem_of_mem_tail ha)
+    cases hr : runProc U fuel s i dt p k (acts.headD (.user .none)) with
     | mk s1 o1 =>
-      obtain ⟨wf1, e1⟩ := runProc_spec U fuel wf hr
+      obtain ⟨wf1, e1⟩ := runProc_spec U fuel wf hhead hr
       rw [hr] at h
       cases o1 with
       | ok =>
-        obtain ⟨wf2, e2⟩ := ih _ _ _ _ _ wf1 h
+        obtain ⟨wf2, e2⟩ := ih _ _ _ _ _ wf1 htail h
         exact ⟨wf2, e1.trans e2⟩
       | raised x => simp only [Prod.mk.injEq] at h; obtain ⟨rfl, _⟩ := h; exact ⟨wf1, e1⟩
       | outOfFuel => simp only [Prod.mk.injEq] at h; obtain ⟨rfl, _⟩ := h; exact ⟨wf1, e1⟩
 
 theorem processWorld_spec (U : Universe) (fuel : Nat) {s s' : St} {i : Inst} {dt : Int}
-    {acts : List Act} {o : Outcome} (wf : WF s)
+    {acts : List PAct} {o : Outcome} (wf : WF s) (hn : ∀ a ∈ acts, a.noSwitch = true)
     (h : processWorld U fuel s i dt acts = (s', o)) : WF s' ∧ Ext (FrP i dt) s s' := by
   unfold processWorld at h
   have wf1 : WF { s with log := .frame i dt :: s.log } := ⟨wf.fresh, wf.cached, wf.cur⟩
@@ -222,7 +297,7 @@ theorem processWorld_spec (U : Universe) (fuel : Nat) {s s' : St} {i : Inst} {dt
     · intro e he; simp only [List.mem_singleton] at he; subst he; exact Or.inr (Or.inr rfl)
     · intro j w _ _ e he; simp only [List.mem_singleton] at he; subst he; rfl
     · intro j w hw hd; exact ⟨w, hw, hd, [], by simp⟩
-  obtain ⟨wf2, e2⟩ := runProcs_spec U fuel i dt _ _ _ _ _ _ wf1 h
+  obtain ⟨wf2, e2⟩ := runProcs_spec U fuel i dt _ _ _ _ _ _ wf1 hn h
   exact ⟨wf2, e1.trans (e2.mono (prP_frP i dt))⟩
 
 /-- a frame of the current world is a step -/
